@@ -20,9 +20,9 @@ DEFAULT_CAP = None  # tensora's own 1024*1024
 
 PARAMS = {
     "quick": dict(formats_per_assignment=4, tries=60, inputs=6, caps=[1, 2], c_fraction=4, wide_inputs=24,
-                  gen_kernels=6, random_assignments=40, random_kernels=40, float_fraction=2),
+                  gen_kernels=20, random_assignments=40, random_kernels=40, float_fraction=2),
     "thorough": dict(formats_per_assignment=12, tries=300, inputs=10, caps=[1, 2, 3, DEFAULT_CAP], c_fraction=2,
-                     wide_inputs=40, gen_kernels=40, random_assignments=300, random_kernels=250, float_fraction=1),
+                     wide_inputs=40, gen_kernels=100, random_assignments=300, random_kernels=250, float_fraction=1),
 }
 
 
